@@ -16,7 +16,9 @@
 
 """Data accessor class for data and metadata from various sources in v4 format."""
 
+import calendar
 import logging
+import time
 
 import dask.array as da
 import katpoint
@@ -236,7 +238,8 @@ class VisibilityDataV4(DataSet):
         # ------ Extract timestamps ------
 
         def _before(date):
-            return capture_start < katpoint.Timestamp(date).secs
+            # The dates are UTC: katpoint.Timestamp(date) goes through the local time zone of the process
+            return capture_start < calendar.timegm(time.strptime(date, '%Y-%m-%d'))
 
         self.source = source
         self.file = {}
